@@ -95,6 +95,20 @@ CLAIMED = {
                             "the O(dz) property-lag clause for temperature-dependent coolants is not a theorem."),
         technique="Lean 4 proof (field_simp/ring) over symbolically traced whole-bundle update + per-step reactor oracle",
         design="5/C01"),
+    "C02": dict(
+        text=("Lean theorems: (i) on the gap meshes the real Core.load builds for 2 and 3 adjacent assemblies, for all gap and "
+              "duct-surface temperatures, film coefficients, cell flows, symmetric conduction constants, properties and step "
+              "sizes, the traced gap update's enthalpy change equals the heat the code tallies from the duct walls (conduction "
+              "between gap cells cancels); (ii) for ANY pair of duct/gap meshes of equal perimeter, any film coefficients "
+              "and temperatures, the heat leaving the duct computed on the duct mesh with the h-weighted mapped gap "
+              "temperature equals the heat credited on the gap mesh (interface identity, built on C10's overlap theorems).  "
+              "Real cores (holes, periphery, mixed ring counts, unrodded regions, low-fidelity assemblies) are driven plane "
+              "by plane and the per-step core balance and the gap-side balance are checked; adiabatic cores exchange nothing."),
+        note=COMMON_NOTE + ("T1b symbolic execution of Core._flow_model/_update_energy_balance/_make_conv_mask on real cores; "
+                            "hand list-level interface theorem tied to the code through C10's correspondence.  Larger cores, "
+                            "region changes and six-node regions are covered by the oracle only."),
+        technique="Lean 4 proof over symbolically traced gap update + list-level interface theorem + per-step core oracle",
+        design="5/C02"),
     "C03": dict(
         text=("Lean theorems over any field about the renormalisation / scaling model: with the corrected per-cell "
               "renormalisation the sweep deposits exactly avg x cell length in every power cell for ANY step list tiling "
